@@ -55,6 +55,12 @@ def determinism(ids, nruns=60):
         finally:
             d.cleanup()
         diff_ab = [r for r in runs if a.get(r) != b.get(r)]
+        if getattr(d.mod, 'DIGEST_LAYOUT_SENSITIVE', False):
+            # engines whose event digests depend on object addresses: same-seed executions must agree on the verdicts
+            layout = [r for r in diff_ab if (a.get(r) or (None, None, None))[1:] == (b.get(r) or (None, None, None))[1:]]
+            diff_ab = [r for r in diff_ab if r not in layout]
+            if layout:
+                print('   (%s: %d same-seed runs with equal verdicts but different event digests: %r)' % (pid, len(layout), layout[:5]))
         # under another hash seed the *event digests* may legitimately differ where beartype iterates sets of strings;
         # verdicts must not
         diff_ac = [r for r in runs if (a.get(r) or (None, None, None))[1:] != (c.get(r) or (None, None, None))[1:]]
